@@ -267,6 +267,10 @@ structure Env where
   known : List (List UInt8 × Nat)
   deriving Inhabited
 
+/-- `StaticDomain(domain)`: the callback accepts exactly the configured string, byte for byte (no port stripping, no
+case folding, no sub-domain matching, no Unicode normalisation) -/
+def staticDomain (configured presented : List UInt8) : Bool := configured == presented
+
 /-- `convertTonProofMessage` -/
 def convertTonProofMessage (p : ProofIn) : Outcome Parsed :=
   match splitColon p.address with
